@@ -1,5 +1,6 @@
 import LekkerVerif.Properties.C01
 import LekkerVerif.Properties.C02
+import LekkerVerif.Properties.C02Hier
 import LekkerVerif.Properties.C03
 import LekkerVerif.Properties.C04
 import LekkerVerif.Properties.C05
